@@ -55,7 +55,11 @@ type Opts struct {
 }
 
 func (opts *Opts) init() {
-	utils.SetDefaultNum(&opts.Size, 1024)
+	// The minimum size is 1024. (A smaller or negative size would also turn
+	// into "no limit" in the sharded map.)
+	if opts.Size < 1024 {
+		opts.Size = 1024
+	}
 	utils.SetDefaultNum(&opts.CleanerInterval, defaultCleanerInterval)
 }
 
